@@ -25,7 +25,7 @@ CHECKS = {
         "technique": "bounded exhaustive enumeration of writer programs x files x windows on the real interpreter against a lock-step reference interpreter",
     },
     "C04": {
-        "text": "13 fail-family contexts (executing and non-executing positions) and two error programs under all 8 subsets of {fail, collect, stop} x "
+        "text": "16 fail-family contexts (executing and non-executing positions, conditions that error) and three error programs under all 8 subsets of {fail, collect, stop} x "
         "every file of <=3 (thorough 4) records over 5 row kinds, compared with the run machine in models/refinterp.py on the final verdict, "
         "valid() at the start and failed() at the end of every line, and monotonicity; plus every ordered group of 1-2 (3) members from 5 "
         "member kinds x files incl. the empty file x six run methods: results_manager.is_valid, run manifest all_valid and member manifests "
